@@ -128,3 +128,32 @@ Proof.
   assert (T2 : dt e w * (sg * cr e' w) < 0) by nia.
   nia.
 Qed.
+
+(* ---------------------------------------------------------------- (3) a local maximum is global *)
+(* edge a -> a1 is the line we measure from; u -> v -> w three consecutive vertices; the distance does
+   not decrease on arriving at v and does not increase on leaving it: then no vertex k is farther *)
+Lemma local_max_global sg (ha ha1 hu hv hw hk : fpt) :
+  (sg = 1 \/ sg = -1) ->
+  0 <= sg * fcross hk hu hv ->            (* k on the inner side of edge u -> v *)
+  0 <= sg * fcross hk hv hw ->            (* ... and of edge v -> w *)
+  0 < sg * fcross hw hu hv ->             (* strictly convex at v *)
+  0 <= sg * cr (vsub ha1 ha) (vsub hv hu) ->
+  sg * cr (vsub ha1 ha) (vsub hw hv) <= 0 ->
+  sg * fcross hk ha ha1 <= sg * fcross hv ha ha1.
+Proof.
+  intros Sg I1 I2 Cv Din Dout. rewrite !fcross_cr in *.
+  set (e := vsub ha1 ha) in *. set (u := vsub hu hv). set (w := vsub hw hv). set (x := vsub hk hv).
+  pose proof (cramer e x u w) as C.
+  assert (E1 : cr (vsub hv hu) (vsub hk hu) = - cr u x) by (unfold u, x; unfold cr, vsub; cbn [fst snd]; ring).
+  assert (E2 : cr (vsub hw hv) (vsub hk hv) = - cr x w) by (unfold x, w; unfold cr, vsub; cbn [fst snd]; ring).
+  assert (E3 : cr (vsub hv hu) (vsub hw hu) = - cr u w) by (unfold u, w; unfold cr, vsub; cbn [fst snd]; ring).
+  assert (E4 : cr e (vsub hv hu) = - cr e u) by (unfold u; unfold cr, vsub; cbn [fst snd]; ring).
+  assert (E5 : cr e (vsub hk ha) - cr e (vsub hv ha) = cr e x) by (unfold x; unfold cr, vsub; cbn [fst snd]; ring).
+  rewrite E1 in I1. rewrite E2 in I2. rewrite E3 in Cv. rewrite E4 in Din. fold w in Dout.
+  assert (S2 : sg * sg = 1) by (destruct Sg; subst; reflexivity).
+  assert (R : (sg * cr e x) * (sg * cr u w) = (sg * cr x w) * (sg * cr e u) + (sg * cr u x) * (sg * cr e w)).
+  { replace ((sg * cr e x) * (sg * cr u w)) with (sg * sg * (cr e x * cr u w)) by ring. rewrite C. ring. }
+  assert (Q : 0 <= (sg * cr x w) * (sg * cr e u) + (sg * cr u x) * (sg * cr e w)) by nia.
+  assert (X : sg * cr e x <= 0) by nia.
+  nia.
+Qed.
